@@ -43,6 +43,9 @@ def run(ctx):
     ctx.eff
     for r in (r1, r2, r3, r4, r5):
         ctx.guard(r)
+    ctx.guard(lambda c: c.floor("C02.R5", pat.check_unit_recursion(
+        c, "C02.R5", c.method("Tensor", "_addFiber"),
+        "rank-by-rank registration"), 1, "recursion step of _addFiber"))
     ctx.assume("populate's run-time assert `id(a_payload) == id(popped)` "
                "guards that the popped fiber is the one just created; a loop "
                "body that registers another fiber in the same rank trips it "
